@@ -266,9 +266,24 @@ func TestCampaign(t *testing.T) {
 	col := ev.C()
 	t.Run("random", func(t *testing.T) {
 		rapid.Check(t, func(rt *rapid.T) {
-			c := drawCase(rt)
+			var c Case
 			var wild string
-			c.H, wild = hgen.MaybeRename(rt, c.H, 20)
+			if rapid.IntRange(0, 29).Draw(rt, "bulk?") == 7 {
+				// a RIB with a hundred-odd entries: long Get streams, every table well filled
+				bc := hgen.DefaultBulk()
+				bc.Churn = 10
+				c = Case{H: hgen.DrawBulk(rt, bc), Batch: []int{rapid.IntRange(16, 64).Draw(rt, "bigbatch")}}
+				// keep the entries: the matrix is issued after the last step
+				for i, s := range c.H.Steps {
+					if i > 20 && s.Op != nil && s.Op.Act == gen.DELETE && s.Op.NoPayload && i > len(c.H.Steps)*2/3 {
+						c.H.Steps = c.H.Steps[:i]
+						break
+					}
+				}
+			} else {
+				c = drawCase(rt)
+				c.H, wild = hgen.MaybeRename(rt, c.H, 20)
+			}
 			v := runCase(c)
 			if wild != "" {
 				v.Class("renamed:" + wild)
